@@ -19,7 +19,10 @@ func exploreLocks(repo string) {
 		fmt.Println(err)
 		os.Exit(2)
 	}
-	type stat struct{ locked, unlocked int; where map[string]int }
+	type stat struct {
+		locked, unlocked int
+		where            map[string]int
+	}
 	stats := map[string]*stat{}
 	for _, fn := range p.RepoFuncs() {
 		ls := core.ComputeLockSets(fn)
